@@ -51,7 +51,7 @@ impl Prop for Twins {
         "twins"
     }
     fn cases(&self, tier: Tier) -> u64 {
-        tier.pick(300_000, 6_000_000)
+        tier.pick(300_000, 2_000_000)
     }
     fn strategy(&self, tier: Tier) -> BoxedStrategy<Case> {
         let shape = HistoryShape::default_for(tier);
@@ -199,7 +199,7 @@ impl Prop for UndoGc {
         "undo-gc"
     }
     fn cases(&self, tier: Tier) -> u64 {
-        tier.pick(300_000, 6_000_000)
+        tier.pick(300_000, 2_000_000)
     }
     fn strategy(&self, tier: Tier) -> BoxedStrategy<Self::Case> {
         use crate::props::c12::{ICase, IStep};
@@ -253,7 +253,7 @@ impl Prop for LinkTwins {
         "link-twins"
     }
     fn cases(&self, tier: Tier) -> u64 {
-        tier.pick(150_000, 3_000_000)
+        tier.pick(150_000, 1_000_000)
     }
     fn strategy(&self, tier: Tier) -> BoxedStrategy<Self::Case> {
         crate::props::c09c::Links.strategy(tier)
